@@ -8,6 +8,7 @@ int main(int argc, char **argv) {
     RUN("lqueue_history", 1, true, scn::queue_history<true>(o, R, o.cases));
     RUN("lqueue_string_values", 1, true, scn::queue_string_values<true>(o, R, o.cases));
     RUN("lqueue_callback_consumer", 1, true, scn::queue_callback_consumer<true>(o, R, o.cases));
+    RUN("lqueue_ring_container", 1, true, scn::lqueue_ring_container(o, R, o.cases));
     RUN("lqueue_mt", o.threads, true, scn::queue_mt<true>(o, R, T, o.cases));
     return 0;
 }
